@@ -11,12 +11,12 @@ import registry  # noqa: E402
 TEXT = {
     "C01": "Round trip decode(encode(m)) = m proved in Lean for every graph, start vertex, table, fuel, message, check length and both modes (no hypothesis on the graph); totality of encode on well-formed graphs with the explicit fuel L*|V|+1 (pigeonhole on forced paths). Tie to /repo: differential correspondence of encode/decode/set_vt against the native driver compiled from the same definitions, plus a direct round-trip sweep.",
     "C02": "Window safety of every walk on a graph induced by a filter mask (synchronisation lemma + arcs only lead to marked vertices) and whole-sequence validity for window-decidable LocalBioFilter configurations (C12 window-conjunction + monotonicity for short strands) proved in Lean; constructor sentence: partial theorem + proved counter-example = known finding K1.",
-    "C03": "trimLoop computes the greatest closed sub-mask with the code's own stopping rule (gfp argument, fuel 4^k+1), accessor = induced table, ValueError iff empty, monotone in the mask; threshold-1 phase and latter-map agreement as listed in the evidence. Tie: correspondence of connect_coding_graph / remove_useless / latter_map_to_accessor + independent gfp oracle.",
+    "C03": "For every mask and threshold 1..4 (C03_holds): the result is the largest closed subset (for t = 1: closed1 = at least one retained successor and a branching vertex in reach), the accessor is the induced table, the vertex list is exactly the vertices with arcs, ValueError iff that subset is empty; all fuel-bounded loops of the model (trimming rounds, backward closure, predecessor cascade) provably terminate within their fuel; monotone in the mask; latter-map trimming gives the same graph for t >= 2 (C03_latter_map) and remove_useless is the greatest closed sub-map for ANY latter map (C03_remove_useless). Tie: correspondence of connect_coding_graph / remove_useless / latter_map_to_accessor + independent gfp oracle.",
     "C04": "Termination within L*|V|+1 steps, walk-ness and tightness of the strand on generated graphs, proved from C03's characterisation (GoodFrom) and the Nat-level encoder lemmas; implementation observed through a read-counting accessor proxy with the theorem's budget.",
     "C05": "The emitted strand meets the declarative specification IsEncoding (mixed-radix value with documented arc rank, minimality), the specification determines the strand uniquely, decoding any walk gives its value big-endian; fast mode: carried bits = message (+ one padding 0). Proved for all inputs.",
     "C06": "decode returns exactly L bits iff the string is a walk and the check matches, otherwise ValueError and nothing else (normal mode: any graph; fast mode: under the stated bound), for strings over any alphabet. Proved for all inputs.",
     "C07": "Shape of the check (length, flag symbol, base-4 digits of the ascent-position sum), every single substitution / C,G,T indel changes the first symbol, decode with the original check rejects. Proved for all strands, positions and check lengths.",
-    "C08": "Single interior edit on a vertex-induced graph: detected exactly once and the original is among the candidates (all three edit kinds, with and without the original's check; substitutions also with indel handling off) — as far as listed in the evidence; the multi-edit statement is stated in Lean and tested (direct sweep with spaced edit sets).",
+    "C08": "C08_single (all three edit kinds, with and without the original's check), C08_single_subst (indel handling off) and C08_multi (edit sets with spacing >= 3k+2: detected <= #edits and, when equal, the original is a candidate) are proved for every vertex-induced graph, walk and position; E2E_single_edit states 'detected exactly when no longer a walk'; path_matching is specified soundly and completely (C08b). Tie: correspondence of repair_dna / path_matching and a direct sweep over all single interior edits and spaced multi-edit sets.",
     "C09": "Clean strands returned alone with zero detections on both return paths; candidate list strictly increasing; every candidate reproduces the supplied check — proved for every input.",
     "C10": "repair_dna returns a value for every table/start/ACGT strand of length >= k and every option: the scan needs at most |s|+1 steps (both branches advance), no look-back indexes outside its chunk, look-ups bounded by |s| + 18k(|s|+k). Implementation observed under a look-up budget.",
     "C11": "Mask = filter verdict on the i-th k-mer, ValueError iff none; valid graph = induced shift sub-graph with the arc in the column of the successor's last nucleotide, ValueError for empty mask and None. The filter call convention is observed by the harness with documented-interface filters.",
@@ -25,7 +25,7 @@ TEXT = {
     "C14": "Round trips accessor<->latter map and accessor<->matrix are the identity on every arc subset; content of map/matrix/vertex list; leaf queries agree and equal the d-step walk end points; illegal matrices rejected — proved for every k.",
     "C15": "add/mul/div/sub on canonical decimal strings return canonical strings with the exact value (carry/borrow chains of every length), special cases, canonical strings determined by value — proved by induction on the digit list.",
     "C16": "bits/DNA -> number -> bits/DNA identity at every length, string path = integer path, fixed-width rendering inverse and padding, fuel of the string loops never exhausted — proved.",
-    "C17": "Proved on the exact-arithmetic model: the bounds listed in the evidence; the 1e-4 accuracy of the floating-point power iteration is a test against a certified Collatz-Wielandt enclosure (labelled as a test).",
+    "C17": "Proved on the exact-rational model of the power iteration: estimates in (0,4] (capacity <= 2), 0 for an arc-less graph, exactly d on d-regular graphs in single-start mode, soundness of the Collatz-Wielandt certificate (integer and rational), and what the code's own stopping rule certifies (C17_stop_accuracy: relative error <= tol/delta of the walk growth rate). NOT a theorem: the 1e-4 accuracy of the FLOATING-POINT iteration; it is tested two ways - step-by-step agreement (1e-9) of the float iteration with the exact model, and the result against the certified enclosure.",
     "C18": "For ANY table digit->arc is a bijection onto the live arcs with the decoder's map as inverse (argsort is a permutation), with permutation rows the digit is the documented rank, table shape given a permutation-returning shuffle; decode's acceptance is table independent (C06). Seed reproducibility is observed, not proved.",
     "C19": "Scores have the accessor's shape and are positive only on arcs; every returning call removes exactly one existing arc of maximum score, changes nothing else, keeps accessor and latter map consistent; by induction over any call sequence.",
     "C20": "The Lean model is the stateless specification (every operation a pure function). Decided by translation validation of histories: random interleavings on shared argument objects, bit-for-bit argument snapshots, verbose on/off, results compared with isolated calls and with the model.",
